@@ -1493,7 +1493,11 @@ func verifC19Judge(q *verifC19Query, p *verifC19Prepared, rt *route.Route,
 				fmt.Sprintf("amount %d < htlc_minimum %d of the "+
 					"blinded path", q.Amt, blind.Min))
 		}
-		if q.Amt > blind.Max {
+		if blind.Max == 0 && q.Amt > 0 {
+			// htlc_maximum 0 = not specified (lnd's convention for
+			// max_htlc everywhere else); not judged.
+			j.diag("blinded_htlc_maximum_unspecified", "max=0")
+		} else if q.Amt > blind.Max {
 			j.bad("blinded_htlc_range", "above-blinded-htlc-maximum",
 				fmt.Sprintf("amount %d > htlc_maximum %d of the "+
 					"blinded path", q.Amt, blind.Max))
